@@ -1199,59 +1199,105 @@ theorem nodeLoop_spec (c : NCfg) :
         exact ⟨seps, h1, h2, by simp [h3, hk]⟩
 
 theorem nodeLoop_len (c : NCfg) (k : Nat) (hk : c.maxSplit = some k) :
-    ∀ (items cur : List Item) (nl : Nat) (nm : Bool),
-      (nm = true → (nodeLoop c items cur nl nm).length = 1) ∧
-      (nm = false → (nodeLoop c items cur nl nm).length ≤ 1 + max 1 (k - nl)) := by
+    ∀ (items cur : List Item) (nl : Nat),
+      (nodeLoop c items cur nl (decide (k < nl))).length =
+        1 + min (k + 1 - nl) ((keptItems c.skipNone items).countP c.pred) := by
   intro items
   induction items with
-  | nil => intro cur nl nm; simp [nodeLoop]
+  | nil => intro cur nl; simp [nodeLoop, keptItems]
   | cons n r ih =>
-    intro cur nl nm
+    intro cur nl
     unfold nodeLoop
     by_cases hsk : (c.skipNone && n.isNone) = true
-    · simp only [hsk, if_true]; exact ih cur nl nm
+    · simp only [hsk, if_true]
+      obtain ⟨hs1, hs2⟩ : c.skipNone = true ∧ n.isNone = true := by simpa using hsk
+      have hk0 : keptItems c.skipNone (n :: r) = keptItems c.skipNone r := by
+        simp [keptItems, List.filter_cons, hs1, hs2]
+      rw [hk0]; exact ih cur nl
     · simp only [hsk, Bool.false_eq_true, if_false]
-      by_cases hsp : (!nm && c.pred n) = true
+      have hkept : keptItems c.skipNone (n :: r) = n :: keptItems c.skipNone r := by
+        simp only [Bool.not_eq_true] at hsk
+        simp [keptItems, List.filter, hsk]
+      rw [hkept, List.countP_cons]
+      by_cases hsp : (!decide (k < nl) && c.pred n) = true
       · simp only [hsp, if_true, hk, noMoreAfter]
-        have hnm : nm = false := by
-          simp only [Bool.and_eq_true, Bool.not_eq_true'] at hsp; exact hsp.1
-        refine ⟨by simp [hnm], fun _ => ?_⟩
-        by_cases hle : k ≤ nl + 1
-        · have := (ih (if c.keepSeparators then [n] else []) (nl + 1) (decide (k ≤ nl + 1))).1 (by simp [hle])
-          simp only [List.length_cons, this]; omega
-        · have := (ih (if c.keepSeparators then [n] else []) (nl + 1) (decide (k ≤ nl + 1))).2 (by simp [hle])
-          simp only [List.length_cons]; omega
-      · simp only [hsp, Bool.false_eq_true, if_false]; exact ih (cur ++ [n]) nl nm
+        obtain ⟨hlt, hp⟩ : ¬ k < nl ∧ c.pred n = true := by simpa using hsp
+        have := ih (if c.keepSeparators then [n] else []) (nl + 1)
+        simp only [List.length_cons, this, hp, if_true]
+        omega
+      · simp only [hsp, Bool.false_eq_true, if_false]
+        rw [ih (cur ++ [n]) nl]
+        by_cases hlt : k < nl
+        · have : k + 1 - nl = 0 := by omega
+          simp [this]
+        · have hp : c.pred n = false := by
+            simp only [Bool.and_eq_true, Bool.not_eq_true', decide_eq_false_iff_not, not_and, Bool.not_eq_true] at hsp
+            exact hsp hlt
+          simp [hp]
+
+theorem nodeLoop_len_none (c : NCfg) (hk : c.maxSplit = none) :
+    ∀ (items cur : List Item) (nl : Nat),
+      (nodeLoop c items cur nl false).length = 1 + (keptItems c.skipNone items).countP c.pred := by
+  intro items
+  induction items with
+  | nil => intro cur nl; simp [nodeLoop, keptItems]
+  | cons n r ih =>
+    intro cur nl
+    unfold nodeLoop
+    by_cases hsk : (c.skipNone && n.isNone) = true
+    · simp only [hsk, if_true]
+      obtain ⟨hs1, hs2⟩ : c.skipNone = true ∧ n.isNone = true := by simpa using hsk
+      have hk0 : keptItems c.skipNone (n :: r) = keptItems c.skipNone r := by
+        simp [keptItems, List.filter_cons, hs1, hs2]
+      rw [hk0]; exact ih cur nl
+    · simp only [hsk, Bool.false_eq_true, if_false]
+      have hkept : keptItems c.skipNone (n :: r) = n :: keptItems c.skipNone r := by
+        simp only [Bool.not_eq_true] at hsk
+        simp [keptItems, List.filter, hsk]
+      rw [hkept, List.countP_cons]
+      by_cases hp : c.pred n = true
+      · simp only [hp, Bool.not_false, Bool.true_and, if_true, hk, noMoreAfter, List.length_cons]
+        rw [ih]; omega
+      · simp only [Bool.not_eq_true] at hp
+        simp only [hp, Bool.and_false, Bool.false_eq_true, if_false]
+        rw [ih]; simp
 
 /-- **C18_split_node.**  `split_at_node` partitions the list in order: the returned lists, joined with the
     separator nodes (nodes satisfying the predicate, one between consecutive lists; with
     `keep_separators` it heads the following list), are the list's entries (`None`s dropped under
     `skip_none`) — nothing lost, duplicated or reordered, no node altered; there is one list more than
-    separators, and `max_split=n` gives at most `n` splits.  (For `n ≥ 2` the code as it is stops one split
-    early: at most `n - 1`; see the `example` below.) -/
+    separators; `max_split=n` makes exactly `min n (number of separator nodes)` splits and `max_split=None` splits at
+    every separator node.  (The code before repair F35 stopped one split early for `n ≥ 2`: witness below.) -/
 theorem C18_split_node (c : NCfg) (items : List Item) :
     (∃ seps : List Item, (∀ s ∈ seps, c.pred s = true) ∧
       (splitNode c items).length = seps.length + 1 ∧
       joinSeps c.keepSeparators ((splitNode c items).map Part.items) seps = keptItems c.skipNone items) ∧
-    (∀ n, c.maxSplit = some n → (splitNode c items).length ≤ n + 1) ∧
-    (∀ n, c.maxSplit = some n → 2 ≤ n → (splitNode c items).length ≤ n) := by
+    (∀ n, c.maxSplit = some n →
+      (splitNode c items).length = 1 + min n ((keptItems c.skipNone items).countP c.pred)) ∧
+    (c.maxSplit = none → (splitNode c items).length = 1 + (keptItems c.skipNone items).countP c.pred) := by
   have hmap : (splitNode c items).map Part.items = splitNodeLists c items := by
     simp [splitNode, mkPart, Function.comp_def]
   refine ⟨?_, ?_, ?_⟩
   · obtain ⟨seps, h1, h2, h3⟩ := nodeLoop_spec c items [] 1 (noMoreInit c.maxSplit)
     exact ⟨seps, h1, by simpa [splitNode, splitNodeLists] using h2, by rw [hmap]; simpa [splitNodeLists] using h3⟩
   · intro n hn
-    have h := nodeLoop_len c n hn items [] 1 (noMoreInit c.maxSplit)
-    simp only [splitNode, List.length_map, splitNodeLists]
-    cases n with
-    | zero => have := h.1 (by simp [hn, noMoreInit]); omega
-    | succ m => have := h.2 (by simp [hn, noMoreInit]); omega
-  · intro n hn h2
-    have h := nodeLoop_len c n hn items [] 1 (noMoreInit c.maxSplit)
-    simp only [splitNode, List.length_map, splitNodeLists]
-    have := h.2 (by rw [hn]; cases n with | zero => omega | succ m => rfl)
+    have h := nodeLoop_len c n hn items [] 1
+    have hinit : noMoreInit c.maxSplit = decide (n < 1) := by
+      rw [hn]; cases n <;> simp [noMoreInit]
+    simp only [splitNode, List.length_map, splitNodeLists, hinit, h]
     omega
+  · intro hn
+    have h := nodeLoop_len_none c hn items [] 1
+    simp only [splitNode, List.length_map, splitNodeLists, hn, noMoreInit, h]
 
+/-- the loop with the test before repair F35 -/
+def nodeLoopAsIs (c : NCfg) : List Item → (cur : List Item) → (nlists : Nat) → (noMore : Bool) → List (List Item)
+  | [], cur, _, _ => [cur]
+  | n :: r, cur, nlists, noMore =>
+    if c.skipNone && n.isNone then nodeLoopAsIs c r cur nlists noMore
+    else if !noMore && c.pred n then
+      cur :: nodeLoopAsIs c r (if c.keepSeparators then [n] else []) (nlists + 1) (noMoreAfterAsIs c.maxSplit (nlists + 1) noMore)
+    else nodeLoopAsIs c r (cur ++ [n]) nlists noMore
 
 /-! ### parse_keyval_content -/
 
@@ -1362,9 +1408,15 @@ example : (SepD.lit [',']).matcher [',', 'a', ',', 'b'] 1 = .found 2 3 := by dec
 example : partTexts (splitCharsFixed SepD.eos.matcher (some 1) true true (some 2) [Item.chars 0 ['a', 'b']]) = some [['a', 'b'], []] := by
   decide
 
-/-- split_at_node: three separator nodes, `max_split=2` — one split only (left as it is: "at most n") -/
+/-- split_at_node: three separator nodes, `max_split=2` — two splits, three parts (C18_split_node, repaired code) -/
 example : (splitNode { pred := fun it => it.isOpq, skipNone := true, keepSeparators := false, maxSplit := some 2 }
-      [Item.opq 0 1 ['~'] .other, Item.opq 1 2 ['~'] .other, Item.opq 2 3 ['~'] .other]).length = 2 := by decide
+      [Item.opq 0 1 ['~'] .other, Item.opq 1 2 ['~'] .other, Item.opq 2 3 ['~'] .other]).length = 3 := by decide
+
+/-- **F35 (as-is witness).**  With the test `len(nodelists_list) >= max_split` the same call made one split only
+    (`max_split=n` gave `n - 1` splits for every `n ≥ 2`). -/
+theorem C18_asis_split_node_one_short :
+    (nodeLoopAsIs { pred := fun it => it.isOpq, skipNone := true, keepSeparators := false, maxSplit := some 2 }
+      [Item.opq 0 1 ['~'] .other, Item.opq 1 2 ['~'] .other, Item.opq 2 3 ['~'] .other] [] 1 false).length = 2 := by decide
 
 end Split
 end Pylx
